@@ -51,6 +51,43 @@ func (c *Case) ViolateD(key string, detail interface{}, format string, args ...i
 	c.res.Violations = append(c.res.Violations, Violation{Key: key, Msg: fmt.Sprintf(format, args...), Detail: detail})
 }
 
+// KeepViolations drops every recorded violation whose key does not start with one of the prefixes.
+func (c *Case) KeepViolations(prefixes ...string) {
+	var out []Violation
+	for _, v := range c.res.Violations {
+		for _, p := range prefixes {
+			if len(v.Key) >= len(p) && v.Key[:len(p)] == p {
+				out = append(out, v)
+				break
+			}
+		}
+	}
+	c.res.Violations = out
+}
+
+// MapViolationKeys rewrites the keys of recorded violations ("" drops the violation).
+func (c *Case) MapViolationKeys(f func(string) string) {
+	var out []Violation
+	for _, v := range c.res.Violations {
+		if k := f(v.Key); k != "" {
+			v.Key = k
+			out = append(out, v)
+		}
+	}
+	c.res.Violations = out
+}
+
+// NViolPrefix counts recorded violations with a key prefix.
+func (c *Case) NViolPrefix(prefix string) int {
+	n := 0
+	for _, v := range c.res.Violations {
+		if len(v.Key) >= len(prefix) && v.Key[:len(prefix)] == prefix {
+			n++
+		}
+	}
+	return n
+}
+
 // NViol is the number of violations recorded so far.
 func (c *Case) NViol() int { return len(c.res.Violations) }
 
